@@ -43,6 +43,9 @@ ENUM2 = {"metadata_type": "define_enum", "namespace": "MyNS", "name": "Kind", "v
 COLL = {"metadata_type": "add_atlas_event_collection_info", "name": "MyJets", "include_files": ["xAODJet/JetContainer.h"], "container_type": "xAOD::JetContainer", "element_type": "xAOD::Jet", "contains_collection": True}
 COLL_REPLACE = {"metadata_type": "add_atlas_event_collection_info", "name": "Jets", "include_files": ["other/Other.h"], "container_type": "xAOD::OtherContainer", "element_type": "xAOD::Other", "contains_collection": True}
 FUNC = {"metadata_type": "add_cpp_function", "name": "MyFunc", "include_files": ["myfunc.h"], "arguments": ["a"], "code": ["double result = a * 2;"], "return_type": "double"}
+TRUTH_NEW = {"metadata_type": "add_method_type_info", "type_string": "xAOD::TruthParticle", "method_name": "nKids", "return_type": "int"}
+TRUTH_OVERRIDE = {"metadata_type": "add_method_type_info", "type_string": "xAOD::TruthParticle", "method_name": "prodVtx", "return_type": "int"}
+GSF_NEW = {"metadata_type": "add_method_type_info", "type_string": "reco::GsfElectron", "method_name": "nBrem", "return_type": "int"}
 FUNC_V2 = {"metadata_type": "add_cpp_function", "name": "MyFunc", "include_files": ["other.h"], "arguments": ["a"], "code": ["double result = a + 100;"], "return_type": "double"}
 COLL_V2 = {"metadata_type": "add_atlas_event_collection_info", "name": "MyJets", "include_files": ["xAODMuon/MuonContainer.h"], "container_type": "xAOD::MuonContainer", "element_type": "xAOD::Muon", "contains_collection": True}
 SCRIPT = {"metadata_type": "add_job_script", "name": "s1", "script": ["leak_line_1 = 1"], "depends_on": []}
@@ -69,6 +72,9 @@ A_XMD = "Select(DS, lambda e: e.EventInfo('EventInfo').runNumber())"
 A_TRUTH = "Select(DS, lambda e: e.TruthParticles('Truth').Select(lambda t: t.prodVtx().x()))"  # relies on the ATLAS default method types
 C_TRK = "Select(DS, lambda e: e.Muons('muons').Select(lambda m: m.globalTrack().pt()))"  # relies on the CMS default method types
 M_TRK = "Select(DS, lambda e: e.Muons('slimmedMuons').Select(lambda m: m.isPFMuon()))"
+A_KIDS = "Select(DS, lambda e: e.TruthParticles('Truth').Select(lambda t: t.nKids()))"
+A_PVTX = "Select(DS, lambda e: e.TruthParticles('Truth').Select(lambda t: t.prodVtx()))"
+C_BREM = "Select(DS, lambda e: e.GsfElectrons('gsf').Select(lambda g: g.nBrem()))"
 C_PT = "Select(DS, lambda e: e.Muons('muons').Select(lambda m: m.pt()))"
 M_PT = "Select(DS, lambda e: e.Muons('slimmedMuons').Select(lambda m: m.pt()))"
 
@@ -86,6 +92,10 @@ STEP_POOL = [
     ("declare-function", "atlas", q(A_FUNC, [FUNC]), True, False),
     ("declare-function-v2", "atlas", q(A_FUNC, [FUNC_V2]), True, False),
     ("declare-collection-v2", "atlas", q(A_MYJETS, [COLL_V2]), True, False),
+    ("declare-on-class-with-defaults", "atlas", q(A_KIDS, [TRUTH_NEW]), True, False),
+    ("override-a-default-type", "atlas", q(A_PVTX, [TRUTH_OVERRIDE]), True, False),
+    ("override-a-default-type-then-bad-body", "atlas", q(A_BAD_BODY, [TRUTH_OVERRIDE]), True, True),
+    ("cms-declare-on-class-with-defaults", "cms_aod", q(C_BREM, [GSF_NEW]), True, False),
     ("atlas-default-types", "atlas", q(A_TRUTH), False, False),
     ("cms-default-types", "cms_aod", q(C_TRK), False, False),
     ("miniaod-default-types", "cms_miniaod", q(M_TRK), False, False),
@@ -105,7 +115,7 @@ PROBES = [
     ("atlas", q(A_XMD, [XMD])), ("atlas", q(A_XMD)), ("cms_aod", q(C_PT)), ("cms_miniaod", q(M_PT)),
     ("atlas", q("Select(DS, lambda e: (e.Jets('AntiKt4').Select(lambda j: j.pt()).First(), e.Jets('AK10').Count() / 2))")),
     ("atlas", q(A_FUNC, [FUNC])), ("atlas", q(A_FUNC, [FUNC_V2])), ("atlas", q(A_MYJETS, [COLL])), ("atlas", q(A_MYJETS, [COLL_V2])),
-    ("atlas", q(A_TRUTH)), ("cms_aod", q(C_TRK)), ("cms_miniaod", q(M_TRK)),
+    ("atlas", q(A_TRUTH)), ("cms_aod", q(C_TRK)), ("cms_miniaod", q(M_TRK)), ("atlas", q(A_KIDS)), ("cms_aod", q(C_BREM)),
     ("atlas", q(A_PT, [SCRIPT2])),  # depends on s1 that only an earlier query sent: must fail
     ("atlas", q(A_XMD, [XMD]) + " "),  # trailing blank = do NOT register the extended metadata type first: must fail in a fresh process
 ]
